@@ -214,8 +214,15 @@ impl Archive {
         let mut blocks = HashSet::new();
         for band_id in band_ids {
             let band = Band::open(&archive, *band_id).await?;
-            let mut iter = band.index().iter_available_hunks().await;
-            while let Some(hunk) = iter.next().await {
+            // Read the hunks strictly: this set decides which blocks may be deleted, so an
+            // index that can't be listed, read or decoded must stop the operation rather
+            // than make the blocks it references look unreferenced.
+            let mut index = band.index();
+            for hunk_number in index.hunks_available().await? {
+                let Some(hunk) = index.read_hunk(hunk_number).await? else {
+                    // Listed a moment ago but no longer readable.
+                    return Err(Error::DeleteWithConcurrentActivity);
+                };
                 for addr in hunk.into_iter().flat_map(|entry| entry.addrs) {
                     blocks.insert(addr.hash);
                     task.increment(1);
